@@ -519,6 +519,18 @@ func (ex *Exec) harnessIntrinsic(f *ssa.Function) intrinsic {
 			}
 			return ex.i64(int64(n))
 		}
+	case "vRunPending":
+		// runs every goroutine deferred by the spec's defer_go that has not run yet, oldest first
+		return func(ex *Exec, st *State, args []Value, site ssa.CallInstruction) Value {
+			if ex.runPendingGo(st) {
+				return pushed{}
+			}
+			return nil
+		}
+	case "vPendingCount":
+		return func(ex *Exec, st *State, args []Value, site ssa.CallInstruction) Value {
+			return ex.i64(int64(len(st.pendingGo)))
+		}
 	case "vSentOn":
 		return func(ex *Exec, st *State, args []Value, site ssa.CallInstruction) Value {
 			ch := args[0].(IfaceV).V.(ChanV)
